@@ -8,6 +8,7 @@ At the node/cluster levels the cleaner's timing wheel is frozen and the driver p
 timer (due tick = tick at SetTimer + delay/1s), so retry chains run in virtual time up to the 1 h stage.
 """
 import json
+import os
 import vlib
 from vlib import cZ, cnat, cbool, clist, copt, cpair
 
@@ -44,7 +45,10 @@ RULE = ("sequential histories of 5-80 ops (QueryRow 30%, QueryRowIndex 20% [Cach
         "from other goroutines / OS threads with runtime.GC() in between, 20-60% of them under a request-scoped context that is "
         "cancelled as soon as the call returns; the CachedConn is built by NewConnWithCache, NewNodeConn or NewConn; in 20% of "
         "the constructor-built caches WithExpire / WithNotFoundExpire get 0 or a negative duration (= the default); exec "
-        "callbacks return nil, a result with 1 or 0 rows affected, or one whose RowsAffected fails; Redis-down faults use miniredis SetError; in 70% of the node / cluster histories the cleaner runs "
+        "callbacks return nil, a result with 1 or 0 rows affected, or one whose RowsAffected fails; concurrent calls are spread "
+        "over four CachedConn values built by separate constructor calls; one fixed case has seven retries due in one tick on a "
+        "5-worker cleaner with the first ten retry DELs answered only after 3.3 s; the thorough tier adds one case that leaves "
+        "a fresh cache idle for a full statistics interval (62 s real time) before reading; Redis-down faults use miniredis SetError; in 70% of the node / cluster histories the cleaner runs "
         "on a real collection.TimingWheel (1 s x 300 slots, fake ticker ticked once per virtual second, chains driven to "
         "the 1 h stage), otherwise on the abstract timer; jitter draws u=m/1024 scripted per op; the TTL of every key is read back from miniredis after "
         "every op (0 = no expiry); ~22% of the histories inject GET/SET/DEL faults per "
@@ -300,6 +304,9 @@ def gen_shared(rng):
     sched += [["t", lead]] * len(then)               # the model starts the further calls of the goroutine here
     for k in range(nkeys):
         sched.append(["t", add(key=k)])
+    if rng.random() < 0.6:
+        for t in threads:
+            t["cn"] = rng.randrange(4)
     return {"level": "conc", "expire": 100, "nfexpire": 10, "nnodes": 1, "threads": threads, "sched": sched, "ops": []}
 
 
@@ -396,11 +403,46 @@ def gen_conc(rng, kind=None):
     for _ in range(2):
         for k in range(nkeys):
             sched.append(["t", add(False, k)])
+    if rng.random() < 0.6:
+        # the calls are spread over several CachedConn values built by separate NewConnWithCache / NewNodeConn / NewConn
+        # calls over the same Redis: the single flight is per key, not per conn value
+        for t in threads:
+            t["cn"] = rng.randrange(4)
     return {"level": "conc", "expire": 100, "nfexpire": 10, "nnodes": 1, "threads": threads, "sched": sched, "ops": []}
+
+
+def case_more_retries_than_workers():
+    """one fixed case (about 6 s of real time): seven failed deletes whose first retries are due in the same tick on a
+    cleaner with the package's 5 workers; the first ten retry DELs are answered (with an error) only after 3.3 s, so
+    each of the five workers is held for two client attempts (> 6 s) while the other retries wait for a worker; every
+    retry must still be made, and once Redis answers normally all keys go"""
+    ops = [{"op": "exec", "w": ["put", 1, 0, 7], "keys": []}] + [{"op": "qrow", "id": i, "u": [5]} for i in range(4)]
+    ops.append({"op": "fault", "node": -1, "g": False, "s": False, "d": True})
+    ops += [{"op": "del", "keys": [k]} for k in _universe()]
+    ops += [{"op": "fault", "node": -1, "g": False, "s": False, "d": True, "slowms": 3300, "slown": 10}, {"op": "adv", "dt": 1},
+            {"op": "fault", "node": -1, "g": False, "s": False, "d": False}, {"op": "adv", "dt": 5},
+            {"op": "qrow", "id": 1, "u": [5]}, {"op": "qrow", "id": 2, "u": [5]}, {"op": "adv", "dt": 1}]
+    return {"level": "node", "ctor": "new", "opts": "both", "wheel": "real", "workers": 5, "expire": 100, "nfexpire": 10,
+            "nnodes": 1, "ops": ops}
+
+
+def case_idle_stat_interval(secs=62):
+    """THOROUGH tier only (about a minute of real time; cache.statInterval is a constant one-minute real ticker that
+    neither the virtual clock nor a hook can shorten): the cache gets a statistics object of its own, nothing is asked
+    of it for a full interval, then reads (uncached, cached, not found, cancelled) must still answer promptly"""
+    ops = [{"op": "idle", "dt": secs}, {"op": "exec", "w": ["put", 1, 0, 7], "keys": [["pk", 1]]},
+           {"op": "qrow", "id": 1, "u": [5]}, {"op": "qrow", "id": 1, "u": [5]}, {"op": "qrow", "id": 2, "u": [5]},
+           {"op": "qrow", "id": 2, "u": [5]}, {"op": "qrowc", "id": 1, "u": [5]}, {"op": "adv", "dt": 1}]
+    return {"level": "node", "ctor": "new", "opts": "both", "wheel": "real", "freshstat": True, "expire": 100, "nfexpire": 10,
+            "nnodes": 1, "ops": ops}
 
 
 def generate(rng, tier, n):
     cases = []
+    if tier != "search":
+        cases.append(case_more_retries_than_workers())
+    if tier == "thorough" or os.environ.get("VERIF_C06_IDLE") == "1":
+        cases.append(case_idle_stat_interval())
     nconc = max(1, n // 4)
     for i in range(nconc):
         cases.append(gen_conc(rng))
@@ -499,6 +541,13 @@ def search(rng, problems):
                 {"op": "qrow", "id": 1, "u": [m]}, {"op": "qrow", "id": 2, "u": [m]},
                 {"op": "del", "keys": [["pk", 1]]}, {"op": "qidx", "ix": 0, "u": [m, m]}, {"op": "qidx", "ix": 1, "u": [m, m]},
                 {"op": "set", "key": ["pk", 3], "val": ["row", 3, 2, 9], "u": [m]}]})
+    for conns in ((1, 3), (0, 1, 2, 3), (2, 1), (1, 1, 3, 3, 2)):
+        th = [{"w": True, "key": 0, "val": 7, "ga": 0, "gb": 0, "gc": 0}]
+        th += [{"w": False, "key": 0, "val": 0, "ga": 10 * (i + 1) + 1, "gb": 0, "gc": 0, "cn": cn} for i, cn in enumerate(conns)]
+        sch = [["t", i] for i in range(len(th))] + [["o", t["ga"]] for t in th[1:]]
+        th.append({"w": False, "key": 0, "val": 0, "ga": 0, "gb": 0, "gc": 0, "cn": conns[-1]})
+        sch.append(["t", len(th) - 1])
+        out.append({"level": "conc", "expire": 100, "nfexpire": 10, "nnodes": 1, "ops": [], "threads": th, "sched": sch})
     for kind in ("stampede", "cancel", "overlap", "mixed", "shared"):
         for _ in range(15):
             out.append(gen_conc(rng, kind))
@@ -583,7 +632,7 @@ def cop(o):
         return "XQRow %s %s" % (cnat(o["id"]), cZ(u[0]))
     if k == "qrowe":
         return "XQRowE %s" % cnat(o["id"])
-    if k == "gc":
+    if k in ("gc", "idle"):
         return "XGc"
     if k == "qrowc":
         return "XQRowC %s" % cnat(o["id"])
@@ -682,7 +731,9 @@ def encode_seq(case, obs):
     for lg in obs["logs"]:
         evs = []
         # chronological: within a tick the retries run first (at the tick), deletes that arm chains come after
-        for e in sorted(lg, key=lambda e: (e[2], 0 if e[0] == "try" else 1)):
+        # (with several cleaner workers the retries of one tick finish in any order: by chain then)
+        several = case.get("workers", 1) > 1
+        for e in sorted(lg, key=lambda e: (e[2], 0 if e[0] == "try" else 1, e[1] if several else 0)):
             if e[0] == "arm":
                 evs.append("EvArm %s %s %s" % (cnat(e[1]), cZ(e[2]), clist([ckey(x) for x in e[3]])))
             else:
@@ -743,6 +794,8 @@ def bucket(case, obs):
         out.append("conc:followers=%d" % min(len(followers), 8))
         if any(k == "c" for k, _ in case["sched"]):
             out.append("conc:cancel")
+        if len({t.get("cn", 0) % 4 for t in case["threads"]}) > 1:
+            out.append("conc:several-conn-values")
         if any(t.get("then") for t in case["threads"]):
             out.append("conc:leader-goes-on-while-waiters-decode")
         if any(r == "ctx" or (isinstance(r, list) and "ctx" in r) for r in obs["res"]):
@@ -766,6 +819,10 @@ def bucket(case, obs):
             out.append("option<=0:%s" % name)
     if any(o.get("ctxc") for o in case["ops"]):
         out.append("delete-under-request-context")
+    if case.get("workers", 1) > 1:
+        out.append("more-due-retries-than-workers")
+    if any(o["op"] == "idle" for o in case["ops"]):
+        out.append("idle-stat-interval")
     if case.get("ctor") and case["level"] != "sqlc":
         out.append("ctor:%s/%s%s" % (case["ctor"], case.get("opts"), "/%d-nodes" % case["nnodes"] if case["level"] == "cluster" else ""))
         out.append("wheel:" + case.get("wheel", "abs"))
